@@ -570,7 +570,7 @@ def _stored_overwrites(ctx, K, fn, is_stored, new_names, facts0=None, depth=0, s
                     if b is e or key_of(b) is None:
                         continue
                     rb, renv = fl.resolve(b, env)
-                    if is_stored(rb, v) and added(st.value, env):
+                    if is_stored(rb, v, fl, renv) and added(st.value, env):
                         hits.append((v, st))
         for c in [x for x in ast.walk(st) if isinstance(x, ast.Call)]:
             rc = _resolve_callee(ctx, K, v, c)
@@ -580,7 +580,7 @@ def _stored_overwrites(ctx, K, fn, is_stored, new_names, facts0=None, depth=0, s
             ps = callee.params[1:] if drop else callee.params
             bound = dict(zip(ps, c.args))
             bound.update({k.arg: k.value for k in c.keywords if k.arg})
-            stored_ps = {q for q, a in bound.items() if key_of(a) is not None and is_stored(fl.resolve(a, env)[0], v)}
+            stored_ps = {q for q, a in bound.items() if key_of(a) is not None and is_stored(*fl.resolve(a, env)[:1], v, fl, fl.resolve(a, env)[1])}
             new_ps = {q for q, a in bound.items() if q not in stored_ps and added(a, env)}
             if not stored_ps or not new_ps:
                 continue
@@ -597,7 +597,7 @@ def _stored_overwrites(ctx, K, fn, is_stored, new_names, facts0=None, depth=0, s
                     cf["const:" + q] = val.value
             hits += [(v, c) for _x in _stored_overwrites(
                 ctx, callee.cls if callee.cls is not None else K, callee,
-                lambda e, _v, sp=stored_ps: isinstance(e, ast.Name) and e.id in sp, new_ps, cf, depth + 1, seen)][:1]
+                lambda e, _v, _fl=None, _env=None, sp=stored_ps: isinstance(e, ast.Name) and e.id in sp, new_ps, cf, depth + 1, seen)][:1]
     return hits
 
 
@@ -624,14 +624,16 @@ def rule_keep(ctx) -> RuleResult:
         sn = fn.self_name or "self"
         new_names = [q for q in fn.params[1:] if q in _DEPTH_PARAMS]
 
-        def is_stored(e, _v, sn=sn):
+        def is_stored(e, _v, _fl=None, _env=None, sn=sn):
             k = key_of(e)
             return k is not None and any(k == f"{sn}.{a}" or k.startswith(f"{sn}.{a}.") for a in stored_props)
 
         hits = _stored_overwrites(ctx, dh, fn, is_stored, new_names)
         res.inst(f"Drillhole.{name}: no element of the stored depths is assigned from `{', '.join(new_names)}`", nontrivial=True, ok=not hits)
         for v, st in hits[:1]:
-            res.find("Drillhole", name, "stored depths are overwritten with the depths being added", f"{fn.module.relpath}:{st.lineno}",
+            # a statement of an expanded helper keeps the helper's own line: point at the entry point then
+            line = st.lineno if fn.node.lineno <= st.lineno <= fn.node.end_lineno else fn.node.lineno
+            res.find("Drillhole", name, "stored depths are overwritten with the depths being added", f"{fn.module.relpath}:{line}",
                      "the depth recorded for an existing vertex is replaced by the collocated new depth while the vertex stays where it is: "
                      "the vertex no longer sits at the position of its depth, and values added earlier move to another depth (creeping with every addition)")
     return res
@@ -756,4 +758,189 @@ def rule_dev(ctx) -> RuleResult:
     return res
 
 
-RULES = [rule_cache, rule_prov, rule_match, rule_keep, rule_dev]
+_ARRAY_MAKERS = {"array", "asarray", "asanyarray", "full", "empty", "zeros", "ones", "repeat", "tile", "chararray"}
+_LIKE_MAKERS = {"full_like", "empty_like", "zeros_like", "ones_like"}
+
+
+def rule_width(ctx) -> RuleResult:
+    import ast
+
+    from ..model import AnalysisError
+    from ._c17_flow import call_name, key_of
+
+    res = RuleResult(
+        "C18.WIDTH",
+        "C18",
+        "text values added for depths / intervals are never stored item by item into a string array of fixed width: an array built from "
+        "string literals that receives elements of the incoming values takes its dtype from those values (dtype=values.dtype, "
+        "astype(values.dtype), a *_like(values) constructor) or is an object array — otherwise every stored string is cut to the "
+        "width of the literal",
+        floor=2,
+    )
+    dh = ctx.p.cls("Drillhole")
+    for name in _ENTRY_POINTS:
+        fn = dh.methods.get(name)
+        if fn is None:
+            raise AnalysisError(f"anchor Drillhole.{name} not found")
+        value_names = [q for q in fn.params[1:] if q in _VALUE_PARAMS]
+
+        def elastic(dt, fl, env):
+            """the dtype expression follows the incoming values, or is the object dtype"""
+            if dt is None:
+                return False
+            if fl.roots(dt, env) & set(value_names):
+                return True
+            txt = ast.unparse(fl.resolve(dt, env)[0] if key_of(dt) is not None else dt)
+            return txt in ("object", "np.object_", "numpy.object_", "'O'", "'object'")
+
+        def fixed_text(val, fl, env, depth=0):
+            """val builds an array of strings whose width is that of string literals"""
+            if depth > 4:
+                return False
+            if key_of(val) is not None:
+                ds, entry = fl.reaching(val, env)
+                return any(d.strong and d.value is not None and d.index is None and fixed_text(d.value, fl, fl.env([d.node]), depth + 1) for d in ds)
+            if not isinstance(val, ast.Call):
+                return False
+            nm = call_name(val)
+            if nm in ("astype", "view") and isinstance(val.func, ast.Attribute):
+                if val.args and elastic(val.args[0], fl, env):
+                    return False
+                return fixed_text(val.func.value, fl, env, depth + 1)
+            if nm in ("copy",) and isinstance(val.func, ast.Attribute) and not val.args:
+                return fixed_text(val.func.value, fl, env, depth + 1)
+            dt = next((k.value for k in val.keywords if k.arg == "dtype"), None)
+            if nm in _LIKE_MAKERS:
+                if dt is None and val.args and (fl.roots(val.args[0], env) & set(value_names)):
+                    return False
+            elif nm not in _ARRAY_MAKERS:
+                return False
+            if elastic(dt, fl, env):
+                return False
+            data_args = list(val.args) + [k.value for k in val.keywords if k.arg != "dtype"]
+            has_text = any(isinstance(x, ast.Constant) and isinstance(x.value, str) for a in data_args for x in fl.atoms(a, env))
+            if dt is not None and not has_text:
+                txt = ast.unparse(fl.resolve(dt, env)[0] if key_of(dt) is not None else dt)
+                has_text = txt in ("str", "np.str_", "'U'", "'S'") or txt.strip("'\"").lstrip("<>|=")[:1] in ("U", "S")
+            if has_text:
+                built.append(val)
+            return has_text
+
+        built: list = []
+        hits = _stored_overwrites(ctx, dh, fn, lambda e, _v, fl=None, env=None: fl is not None and fixed_text(e, fl, env), value_names)
+        res.inst(f"Drillhole.{name}: no element of `{', '.join(value_names)}` is stored into a fixed-width string array", nontrivial=True, ok=not hits)
+        for v, st in hits[:1]:
+            at = [b.lineno for b in built if fn.node.lineno <= b.lineno <= fn.node.end_lineno]
+            res.find("Drillhole", name, "text values are stored item by item into a fixed-width string array", f"{fn.module.relpath}:{at[-1] if at else fn.node.lineno}",
+                     "the array receiving the values was built from string literals without a dtype taken from the values: every text value "
+                     "merged into it is truncated to the literal's width ('granite' -> 'g')")
+    return res
+
+
+def _array_valued_data_classes(p):
+    """Concrete Data classes (own primitive type other than the abstract placeholder) whose `values` accept a numpy array — decided from
+    the isinstance tests of their `values` getter / setter: what a `type` entry of add_data can create with one value per vertex."""
+    import ast
+
+    out = []
+    data = p.cls("Data", "data.data")
+    for K in p.subclasses(data, strict=True):
+        if K.synthetic:
+            continue
+        pt = K.lookup("primitive_type")
+        if not pt or pt[1] != "method":
+            continue
+        rets = [r.value for r in ast.walk(pt[2].node) if isinstance(r, ast.Return) and r.value is not None]
+        if not rets or any(isinstance(r, ast.Attribute) and r.attr == "INVALID" for r in rets):
+            continue
+        m = K.lookup("values")
+        if not m or m[1] != "prop":
+            continue
+        accepts = False
+        for f in (m[2].getter, m[2].setter):
+            if f is None:
+                continue
+            for c in ast.walk(f.node):
+                if isinstance(c, ast.Call) and isinstance(c.func, ast.Name) and c.func.id == "isinstance" and len(c.args) == 2 \
+                        and any(isinstance(x, ast.Attribute) and x.attr == "ndarray" or isinstance(x, ast.Name) and x.id == "ndarray" for x in ast.walk(c.args[1])):
+                    accepts = True
+        if accepts:
+            out.append(K)
+    return out
+
+
+def rule_sortall(ctx) -> RuleResult:
+    import ast
+
+    from ..kinds import reach, tv
+    from ..model import AnalysisError
+    from ._c17_flow import Flow, key_of
+
+    res = RuleResult(
+        "C18.SORTALL",
+        "C18",
+        "when sort_depths re-orders the vertices it re-orders the values of every child that can hold one value per vertex: the class "
+        "filter on the loop over the children lets through every concrete Data class whose values may be a numpy array (derived from "
+        "the Data hierarchy: the numeric family, text, ...), so each value stays attached to its depth",
+        floor=1,
+    )
+    p = ctx.p
+    dh = p.cls("Drillhole")
+    fn = dh.methods.get("sort_depths")
+    if fn is None:
+        raise AnalysisError("anchor Drillhole.sort_depths not found")
+    classes = _array_valued_data_classes(p)
+    if len(classes) < 2:
+        raise AnalysisError("C18.SORTALL: the Data classes holding array values could not be derived")
+    every = {c.name for c in p.classes}
+    v = ctx.view(fn)
+    sn = v.self_name or "self"
+    fl = Flow(v.node)
+    parents = {}
+    for n in ast.walk(v.node):
+        for ch in ast.iter_child_nodes(n):
+            parents[id(ch)] = n
+    sites = 0
+    for st in ast.walk(v.node):
+        if not (isinstance(st, ast.Assign) and fl.nodes_of(st.value)):
+            continue
+        tg = next((t for t in st.targets if isinstance(t, ast.Attribute) and t.attr == "values" and isinstance(t.value, ast.Name)), None)
+        if tg is None:
+            continue
+        var = tg.value.id
+        loop = st
+        while id(loop) in parents and not (isinstance(loop, ast.For) and any(isinstance(x, ast.Name) and x.id == var for x in ast.walk(loop.target))):
+            loop = parents[id(loop)]
+        if not isinstance(loop, ast.For):
+            continue
+        it, ienv = fl.resolve(loop.iter) if key_of(loop.iter) is not None else (loop.iter, None)
+        if not any(isinstance(x, ast.Attribute) and x.attr == "children" and isinstance(x.value, ast.Name) and x.value.id == sn for x in fl.atoms(loop.iter)):
+            continue
+        sites += 1
+        comp_ifs = []
+        if isinstance(it, (ast.ListComp, ast.GeneratorExp, ast.SetComp)) and len(it.generators) == 1 and isinstance(it.generators[0].target, ast.Name):
+            comp_ifs = [(it.generators[0].target.id, c) for c in it.generators[0].ifs]
+        head = [n for n in fl.g.nodes if n.kind == "fornext" and n.stmt is loop]
+        store_nodes = set(fl.nodes_of(st.value))
+        left_out = []
+        for C in classes:
+            anc = {(c if isinstance(c, str) else c.name) for c in C.mro}
+            facts = {nm: (nm in anc) for nm in every}
+            kept = all(tv(c, cv, facts) is not False for cv, c in comp_ifs)
+            if kept:
+                starts = [m for h in head for m, lab in h.succ if lab == "loop"]
+                kept = bool(store_nodes & reach(fl.g, starts, var=var, facts=facts, stop=lambda n: n in head))
+            if not kept:
+                left_out.append(C.name)
+        ok = not left_out
+        res.inst(f"Drillhole.sort_depths:{st.lineno} values of the children re-ordered for every array-valued Data class ({len(classes)} classes)", nontrivial=True, ok=ok)
+        if not ok:
+            res.find("Drillhole", "sort_depths", "vertex data of some array-valued Data classes are not re-ordered with the vertices", f"{fn.module.relpath}:{st.lineno}",
+                     f"children of class {', '.join(sorted(left_out))} never reach the re-ordering of their values: after the vertices and the DEPTH data "
+                     "are sorted, such a child still lists its values in the old order — every value is attached to another depth")
+    if sites == 0:
+        raise AnalysisError("Drillhole.sort_depths: no loop over the children that re-orders their values found")
+    return res
+
+
+RULES = [rule_cache, rule_prov, rule_match, rule_keep, rule_dev, rule_width, rule_sortall]
